@@ -2174,7 +2174,13 @@ pub(crate) fn skip_attributes<R: Reader>(
         loop {
             if let Some(len) = get_attribute_size(form, encoding) {
                 // We know the length of this attribute. Accumulate that length.
-                skip_bytes += R::Offset::from_u8(len);
+                let total = skip_bytes.wrapping_add(R::Offset::from_u8(len));
+                if total < skip_bytes {
+                    // The accumulated length is not representable, so it is
+                    // certainly past the end of the input.
+                    return Err(Error::UnexpectedEof(input.offset_id()));
+                }
+                skip_bytes = total;
                 break;
             }
 
